@@ -294,8 +294,10 @@ def channel_wrapper(E):
         E.prove('wrapper.on_error:one_ERROR_on_own_stream', len(em) == 1 and em[0][1] == 'send_error' and em[0][2][0] is sid and em[0][2][1] is ex)
         E.prove('@C08,C10:wrapper.on_error:ERROR_ends_the_interaction_stream_released', len(c.finishes()) >= 1)
     sc, rc = flags(h)
-    if what != 2:
-        E.prove('wrapper:released_iff_both_directions_closed', (len(c.finishes()) >= 1) == (sc is True and rc is True))
+    if what == 2:
+        # weaker than the open finding above and PROVED, so that the current half-close behaviour cannot degrade further
+        E.prove('wrapper.on_error:at_least_the_sending_direction_is_closed', sc is True)
+    E.prove('wrapper:released_iff_both_directions_closed', (len(c.finishes()) >= 1) == (sc is True and rc is True))
     if c.event is not None and sc is True:
         E.prove('wrapper:sending_done_event_set_when_sending_closed', c.event.attrs['flag'] is True)
     if c.finishes():
